@@ -14,40 +14,34 @@ import OdxVerif.Proofs.DispatchMain
       make its service a candidate. The repair (consult the root) contradicts four unit tests of odxtools
       (the somersault `schroedinger` service has such a request and the tests expect it *not* to be
       reported), so the model follows the existing code and the full statement is refuted by
-      `C06_attribution_counterexample` / `C06_prefix_tree_complete_counterexample`. -/
+      `C06_attribution_counterexample` / `C06_prefix_tree_complete_counterexample`.
+
+    Modes: since `fix: DiagService.decode_message() always raises if no coding object applies` (460d650)
+    non-strict mode differs from strict mode only when several own coding objects of one service match
+    (`odxraise("cannot uniquely decode")` → the first one is returned): `C06_lenient_eq_strict`,
+    `C06_lenient_attribution` (which therefore needs no `Unambiguous`), `C06_lenient_general`. -/
 namespace OdxVerif.Dispatch
 open Spec
 
-/-- The full statement of the property for one `(dec, L, M)`: strict `decode` reports exactly the
+/-- The full statement of the property for one `(dec, L, M)` and one mode: `decode` reports exactly the
     attributed services and raises a decode error iff there is none. -/
-def AttributionHolds (dec : Oracle) (L : Layer) (M : Bytes) : Prop :=
-  (∀ ms, decode dec true L M = .ok ms → ms ≠ [] ∧ ∀ s, (∃ c, (s, c) ∈ ms) ↔ s ∈ attributed dec L M) ∧
-  (∀ e, decode dec true L M = .error e → e = .decode ∧ attributed dec L M = [])
+def AttributionHolds (dec : Oracle) (strict : Bool) (L : Layer) (M : Bytes) : Prop :=
+  (∀ ms, decode dec strict L M = .ok ms → ms ≠ [] ∧ ∀ s, (∃ c, (s, c) ∈ ms) ↔ s ∈ attributed dec L M) ∧
+  (∀ e, decode dec strict L M = .error e → e = .decode ∧ attributed dec L M = [])
 
 /-- **C06 (main clause), proved part**: model `decode` = attribution spec, for all layers without an
     empty constant prefix. -/
 theorem C06_attribution_partial (dec : Oracle) (L : Layer) (M : Bytes)
     (hC05 : NoForeign dec M) (hU : Unambiguous dec L M) (hNE : NoEmptyPrefix L) :
-    AttributionHolds dec L M := by
-  obtain ⟨hok, herr⟩ := decodeCandidates_strict_char hC05 L ((buildTree L).walk M)
-  have hiff : ∀ s, (∃ c, s ∈ (buildTree L).walk M ∧ Interp dec L M s c) ↔ s ∈ attributed dec L M := by
-    intro s
-    rw [mem_attributed]
-    constructor
-    · rintro ⟨c, hs, hi⟩
-      exact (attributed_of_interp ((mem_candidates L M s).mp hs).1 hi).choose_spec.2.2.2
-    · intro ha
-      obtain ⟨hf, c, hi⟩ := interp_of_attributed (hU s ha.1) (hNE s ha.1) ha
-      exact ⟨c, (mem_candidates L M s).mpr ⟨ha.1, hf⟩, hi⟩
-  refine ⟨fun ms hms => ?_, fun e he => ?_⟩
-  · obtain ⟨hne, hmem⟩ := hok ms hms
-    refine ⟨hne, fun s => ?_⟩
-    rw [← hiff s]
-    exact exists_congr fun c => hmem s c
-  · obtain ⟨rfl, hnone⟩ := herr e he
-    refine ⟨rfl, List.eq_nil_iff_forall_not_mem.mpr fun s hs => ?_⟩
-    obtain ⟨c, hc⟩ := (hiff s).mpr hs
-    exact hnone s c hc
+    AttributionHolds dec true L M := by
+  refine attribution_of_char _ _ _ _ (decodeCandidates_strict_char hC05 L ((buildTree L).walk M)) fun s => ?_
+  rw [mem_attributed]
+  constructor
+  · rintro ⟨c, hs, hi⟩
+    exact (attributed_of_interp ((mem_candidates L M s).mp hs).1 hi).2.2
+  · intro ha
+    obtain ⟨hf, c, hi⟩ := interp_of_attributed (hU s ha.1) (hNE s ha.1) ha
+    exact ⟨c, (mem_candidates L M s).mpr ⟨ha.1, hf⟩, hi⟩
 
 /-- hypotheses and conclusion are met non-trivially: services `22 01 x` / `22 y` sharing a prefix, a global
     negative response `7F <sid> nrc`; message `22 01 05` is attributed to both services, `7F 22 11` to both
@@ -63,20 +57,20 @@ private def L1 : Layer := ⟨[svA, svB], [gnr]⟩
 /-- a decoder which needs `params.length` bytes -/
 private def decLen : Oracle := fun co M => if co.params.length ≤ M.length then .ok else .error
 /-- a result reduced to names: (error class, [(service, coding object)]) -/
-private def view : Except Err (List Msg) → Option Err × List (Nat × Option Nat)
-  | .ok ms => (none, ms.map fun m => (m.1.name, m.2.map (·.name)))
+private def view : Except Err (List Msg) → Option Err × List (Nat × Nat)
+  | .ok ms => (none, ms.map fun m => (m.1.name, m.2.name))
   | .error e => (some e, [])
 
 example : NoForeign decLen [0x22, 1, 5] := by intro co; unfold decLen; split <;> decide
 example : Unambiguous decLen L1 [0x22, 1, 5] ∧ NoEmptyPrefix L1 := by
   unfold Unambiguous NoEmptyPrefix; decide
-example : view (decode decLen true L1 [0x22, 1, 5]) = (none, [(2, some 2), (1, some 1)]) := by decide
+example : view (decode decLen true L1 [0x22, 1, 5]) = (none, [(2, 2), (1, 1)]) := by decide
 example : attributed decLen L1 [0x22, 1, 5] = [svA, svB] := by decide
-example : view (decode decLen true L1 [0x7F, 0x22, 0x11]) = (none, [(1, some 9), (2, some 9)]) := by decide
+example : view (decode decLen true L1 [0x7F, 0x22, 0x11]) = (none, [(1, 9), (2, 9)]) := by decide
 example : view (decode decLen true L1 [0x33, 0]) = (some .decode, []) ∧ attributed decLen L1 [0x33, 0] = [] := by decide
 /-- `22 01`: the candidate `22 01 x` fails with a decode error ("expected a longer message"), `22 y` is
     still reported (fix `c06-candidate-error-aborts-decode`) -/
-example : view (decode decLen true L1 [0x22, 1]) = (none, [(2, some 2)]) := by decide
+example : view (decode decLen true L1 [0x22, 1]) = (none, [(2, 2)]) := by decide
 
 /-- **C06 (main clause), every layer**: what strict `decode` reports, without any envelope on the layer:
     the services *found* through a non-empty constant prefix, each with its unique matching own coding
@@ -95,26 +89,26 @@ theorem C06_attribution_general (dec : Oracle) (L : Layer) (M : Bytes) (hC05 : N
     refine ⟨rfl, fun s c h => hnone s c ?_⟩
     rw [mem_candidates, and_assoc]; exact h
 
-example : Found L1 [0x22, 1, 5] svA ∧ Interp decLen L1 [0x22, 1, 5] svA (some rqA) := by
-  refine ⟨⟨[0x22, 1], by decide, by decide, .inl (by decide)⟩, rqA, rfl, by decide, .inl (by decide)⟩
+example : Found L1 [0x22, 1, 5] svA ∧ Interp decLen L1 [0x22, 1, 5] svA rqA := by
+  refine ⟨⟨[0x22, 1], by decide, by decide, .inl (by decide)⟩, by decide, .inl (by decide)⟩
 
 /-- **soundness without envelope**: whatever strict `decode` reports is a coding object of that service
     (or a global negative response) which matches the message; in particular the service is attributed. -/
 theorem C06_attribution_sound (dec : Oracle) (L : Layer) (M : Bytes) (hC05 : NoForeign dec M)
-    (ms : List Msg) (h : decode dec true L M = .ok ms) (s : Service) (c : Option Coding) (hm : (s, c) ∈ ms) :
-    ∃ co, c = some co ∧ co ∈ ownCodings s ++ L.gnrs ∧ Matches dec s M co ∧ s ∈ attributed dec L M := by
-  obtain ⟨hs, _, hi⟩ := (((C06_attribution_general dec L M hC05).1 ms h).2 s c).mp hm
-  obtain ⟨co, h1, h2, h3, h4⟩ := attributed_of_interp hs hi
-  exact ⟨co, h1, h2, h3, (mem_attributed dec L M s).mpr h4⟩
+    (ms : List Msg) (h : decode dec true L M = .ok ms) (s : Service) (co : Coding) (hm : (s, co) ∈ ms) :
+    co ∈ ownCodings s ++ L.gnrs ∧ Matches dec s M co ∧ s ∈ attributed dec L M := by
+  obtain ⟨hs, _, hi⟩ := (((C06_attribution_general dec L M hC05).1 ms h).2 s co).mp hm
+  obtain ⟨h2, h3, h4⟩ := attributed_of_interp hs hi
+  exact ⟨h2, h3, (mem_attributed dec L M s).mpr h4⟩
 
-example : ∃ ms, decode decLen true L1 [0x22, 1, 5] = .ok ms ∧ (svA, some rqA) ∈ ms :=
-  ⟨[(svB, some rqB), (svA, some rqA)], by rfl, by decide⟩
+example : ∃ ms, decode decLen true L1 [0x22, 1, 5] = .ok ms ∧ (svA, rqA) ∈ ms :=
+  ⟨[(svB, rqB), (svA, rqA)], by rfl, by decide⟩
 
 /-- **the full statement is false for the existing code** (open finding `c06-empty-prefix`): a service whose
     request has no constant prefix, message `33`: attributed, but `decode` raises a decode error. -/
 theorem C06_attribution_counterexample :
     ¬ ∀ (dec : Oracle) (L : Layer) (M : Bytes), NoForeign dec M → Unambiguous dec L M →
-        AttributionHolds dec L M := by
+        AttributionHolds dec true L M := by
   intro h
   have := (h (fun _ _ => .ok) ⟨[⟨1, some ⟨1, [.other]⟩, [], []⟩], []⟩ [0x33]
     (by intro co; simp) (by unfold Unambiguous; decide)).2 .decode (by rfl)
@@ -148,7 +142,7 @@ theorem C06_own_encoding (dec : Oracle) (L : Layer) (M : Bytes) (hC05 : NoForeig
     (s : Service) (hs : s ∈ L.services) (co : Coding) (hco : co ∈ ownCodings s)
     (hm : Matches dec s M co) (hU : ownMatchCount dec s M ≤ 1)
     (hne : constPrefix (Spec.requestPrefix s) co.params ≠ []) :
-    ∃ ms, decode dec true L M = .ok ms ∧ (s, some co) ∈ ms := by
+    ∃ ms, decode dec true L M = .ok ms ∧ (s, co) ∈ ms := by
   have hf : Found L M s := found_of_matches (List.mem_append_left _ hco) hm hne
   exact decodeCandidates_reports hC05 L _ ((mem_candidates L M s).mpr ⟨hs, hf⟩) (interp_of_own hco hm hU)
 
@@ -164,7 +158,7 @@ theorem C06_response_via_request (dec : Oracle) (L : Layer) (response request : 
     (hrq : Spec.requestPrefix s ≠ []) (hreq : Spec.requestPrefix s <+: request)
     (co : Coding) (hco : co ∈ s.pos ++ s.neg) (hm : Matches dec s response co)
     (hU : ownMatchCount dec s response ≤ 1) :
-    ∃ ms, decodeResponse dec true L response request = .ok ms ∧ (s, some co) ∈ ms := by
+    ∃ ms, decodeResponse dec true L response request = .ok ms ∧ (s, co) ∈ ms := by
   have hf : Found L request s := ⟨_, hrq, hreq, .inl rfl⟩
   have ho : co ∈ ownCodings s := by
     simp only [ownCodings, List.mem_append] at hco ⊢
@@ -177,19 +171,18 @@ theorem C06_response_via_request (dec : Oracle) (L : Layer) (response request : 
     response. -/
 theorem C06_response_only_via_request (dec : Oracle) (L : Layer) (response request : Bytes)
     (hC05 : NoForeign dec response) (ms : List Msg)
-    (h : decodeResponse dec true L response request = .ok ms) (s : Service) (c : Option Coding)
-    (hmem : (s, c) ∈ ms) :
-    s ∈ L.services ∧ Found L request s ∧
-      ∃ co, c = some co ∧ co ∈ ownCodings s ++ L.gnrs ∧ Matches dec s response co := by
-  obtain ⟨hs, hi⟩ := (((decodeCandidates_strict_char hC05 L ((buildTree L).walk request)).1 ms h).2 s c).mp hmem
+    (h : decodeResponse dec true L response request = .ok ms) (s : Service) (co : Coding)
+    (hmem : (s, co) ∈ ms) :
+    s ∈ L.services ∧ Found L request s ∧ co ∈ ownCodings s ++ L.gnrs ∧ Matches dec s response co := by
+  obtain ⟨hs, hi⟩ := (((decodeCandidates_strict_char hC05 L ((buildTree L).walk request)).1 ms h).2 s co).mp hmem
   obtain ⟨hs', hf⟩ := (mem_candidates L request s).mp hs
-  obtain ⟨co, h1, h2, h3, _⟩ := attributed_of_interp hs' hi
-  exact ⟨hs', hf, co, h1, h2, h3⟩
+  obtain ⟨h2, h3, _⟩ := attributed_of_interp hs' hi
+  exact ⟨hs', hf, h2, h3⟩
 
 /-- the response `62 01 07` to request `22 01 05` is found for service A only (B's response `62 r` matches
     the bytes as well, and is reported only when the request is B's) -/
-example : view (decodeResponse decLen true L1 [0x62, 1, 7] [0x22, 1, 5]) = (none, [(2, some 4), (1, some 3)]) := by decide
-example : view (decodeResponse decLen true L1 [0x62, 1, 7] [0x22, 2]) = (none, [(2, some 4)]) := by decide
+example : view (decodeResponse decLen true L1 [0x62, 1, 7] [0x22, 1, 5]) = (none, [(2, 4), (1, 3)]) := by decide
+example : view (decodeResponse decLen true L1 [0x62, 1, 7] [0x22, 2]) = (none, [(2, 4)]) := by decide
 example : Spec.requestPrefix svA ≠ [] ∧ Spec.requestPrefix svA <+: [0x22, 1, 5] ∧ prA ∈ svA.pos ++ svA.neg ∧
     Matches decLen svA [0x62, 1, 7] prA ∧ ownMatchCount decLen svA [0x62, 1, 7] ≤ 1 := by decide
 
@@ -205,29 +198,65 @@ theorem C06_service_groups (L : Layer) (k : Option Byte) (s : Service) :
 example : (serviceGroups ⟨[svA, ⟨3, some ⟨5, [.other]⟩, [], []⟩, svB, ⟨4, none, [], []⟩], []⟩).map
     (fun g => (g.1, g.2.map (·.name))) = [(some 0x22, [1, 2]), (none, [3, 4])] := by decide
 
-/-- **C06, non-strict mode**: every candidate yields one message; those carrying a coding object carry the
-    first matching own coding object (so the service is attributed); a found service with a matching own
-    coding object is reported with one; `coding_object=None` means none matches. Global negative
-    responses are never tried in this mode (no exception reaches `_decode`). -/
-theorem C06_lenient (dec : Oracle) (L : Layer) (M : Bytes) (hC05 : NoForeign dec M) (ms : List Msg)
-    (h : decode dec false L M = .ok ms) :
-    (∀ s co, (s, some co) ∈ ms → s ∈ L.services ∧ co ∈ ownCodings s ∧ Matches dec s M co) ∧
-    (∀ s, s ∈ L.services → Found L M s → 0 < ownMatchCount dec s M → ∃ co, (s, some co) ∈ ms) ∧
-    (∀ s, (s, none) ∈ ms → ownMatchCount dec s M = 0) := by
-  have key := (decodeCandidates_lenient_char hC05 L ((buildTree L).walk M)).1 ms h
-  refine ⟨fun s co hm => ?_, fun s hs hf hpos => ?_, fun s hm => ?_⟩
-  · obtain ⟨hc, hh⟩ := (key s _).mp hm
-    have : co ∈ ownMatches dec s M := List.mem_of_head? hh.symm
-    exact ⟨((mem_candidates L M s).mp hc).1, (mem_ownMatches dec s M co).mp this⟩
-  · rw [← length_ownMatches] at hpos
-    match hm : ownMatches dec s M, hpos with
-    | x :: r, _ =>
-      exact ⟨x, (key s _).mpr ⟨(mem_candidates L M s).mpr ⟨hs, hf⟩, by simp [hm]⟩⟩
-  · obtain ⟨_, hh⟩ := (key s _).mp hm
-    rw [← length_ownMatches]
-    match hm' : ownMatches dec s M, hh with
-    | [], _ => rfl
+/-- **C06, non-strict mode = strict mode on unambiguous input**: `decode_message` raises the "cannot
+    decode" error unconditionally, so the mode only matters when several own coding objects of one service
+    match. Without such a service, `decode` and `decode_response` return literally the same result (same
+    messages in the same order, or the same error) in both modes. -/
+theorem C06_lenient_eq_strict (dec : Oracle) (L : Layer) (M : Bytes) (hC05 : NoForeign dec M)
+    (hU : Unambiguous dec L M) :
+    decode dec false L M = decode dec true L M ∧
+    ∀ request, decodeResponse dec false L M request = decodeResponse dec true L M request :=
+  ⟨decodeCandidates_lenient_eq_strict hC05 L _ fun s hs => hU s ((mem_candidates L M s).mp hs).1,
+   fun request => decodeCandidates_lenient_eq_strict hC05 L _ fun s hs => hU s ((mem_candidates L request s).mp hs).1⟩
 
-example : view (decode decLen false L1 [0x22, 1]) = (none, [(2, some 2), (1, none)]) := by decide
+example : NoForeign decLen [0x22, 1] ∧ Unambiguous decLen L1 [0x22, 1] := by
+  refine ⟨by intro co; unfold decLen; split <;> decide, by unfold Unambiguous; decide⟩
+/-- `22 01`: the failing candidate `22 01 x` is skipped in non-strict mode as well (before 460d650 it was
+    reported with `coding_object=None`) -/
+example : view (decode decLen false L1 [0x22, 1]) = (none, [(2, 2)]) := by decide
+
+/-- **C06, non-strict mode, every layer**: exact characterisation. A found service is reported with the
+    *first* matching own coding object (in the order positive responses, negative responses, request), or
+    — if it has none — with every matching global negative response; `DecodeError` iff there is no such pair. -/
+theorem C06_lenient_general (dec : Oracle) (L : Layer) (M : Bytes) (hC05 : NoForeign dec M) :
+    (∀ ms, decode dec false L M = .ok ms →
+        ms ≠ [] ∧ ∀ s co, (s, co) ∈ ms ↔ (s ∈ L.services ∧ Found L M s ∧ InterpLenient dec L M s co)) ∧
+    (∀ e, decode dec false L M = .error e →
+        e = .decode ∧ ∀ s co, ¬ (s ∈ L.services ∧ Found L M s ∧ InterpLenient dec L M s co)) := by
+  obtain ⟨hok, herr⟩ := decodeCandidates_lenient_char hC05 L ((buildTree L).walk M)
+  refine ⟨fun ms hms => ?_, fun e he => ?_⟩
+  · obtain ⟨hne, hmem⟩ := hok ms hms
+    refine ⟨hne, fun s c => ?_⟩
+    rw [hmem s c, mem_candidates, and_assoc]
+  · obtain ⟨rfl, hnone⟩ := herr e he
+    refine ⟨rfl, fun s c h => hnone s c ?_⟩
+    rw [mem_candidates, and_assoc]; exact h
+
+/-- a service with two matching positive responses (`62 r…`, both need ≤ 3 bytes): strict mode answers
+    "cannot uniquely decode" (no global negative response applies → `DecodeError`), non-strict mode
+    reports the first one (twice: the service is stored under `62` once per response) -/
+private def svAmb : Service := ⟨5, some rqB, [prB, ⟨6, [.const [0x62], .other, .other]⟩], []⟩
+example : view (decode decLen true ⟨[svAmb], []⟩ [0x62, 1, 2]) = (some .decode, []) ∧
+    view (decode decLen false ⟨[svAmb], []⟩ [0x62, 1, 2]) = (none, [(5, 4), (5, 4)]) ∧
+    ¬ Unambiguous decLen ⟨[svAmb], []⟩ [0x62, 1, 2] := by
+  refine ⟨by decide, by decide, by unfold Unambiguous; decide⟩
+
+/-- **C06 (main clause) in non-strict mode**: no `Unambiguous` needed — an ambiguous service is reported
+    (with its first matching coding object), so the reported services are exactly the attributed ones for
+    every layer without an empty constant prefix. -/
+theorem C06_lenient_attribution (dec : Oracle) (L : Layer) (M : Bytes)
+    (hC05 : NoForeign dec M) (hNE : NoEmptyPrefix L) :
+    AttributionHolds dec false L M := by
+  refine attribution_of_char _ _ _ _ (decodeCandidates_lenient_char hC05 L ((buildTree L).walk M)) fun s => ?_
+  rw [mem_attributed]
+  constructor
+  · rintro ⟨c, hs, hi⟩
+    exact (attributed_of_interpLenient ((mem_candidates L M s).mp hs).1 hi).2.2
+  · intro ha
+    obtain ⟨hf, c, hi⟩ := interpLenient_of_attributed (hNE s ha.1) ha
+    exact ⟨c, (mem_candidates L M s).mpr ⟨ha.1, hf⟩, hi⟩
+
+example : NoEmptyPrefix ⟨[svAmb], []⟩ ∧ attributed decLen ⟨[svAmb], []⟩ [0x62, 1, 2] = [svAmb] := by
+  refine ⟨by unfold NoEmptyPrefix; decide, by decide⟩
 
 end OdxVerif.Dispatch
